@@ -18,12 +18,13 @@ var c05Specs = []famSpec{
 	{Family: "off-comb", FreshQ: 2000, FreshT: 100000},
 	{Family: "off-tiny-delta", FreshQ: 1500, FreshT: 50000},
 	{Family: "off-groups", FreshQ: 1500, FreshT: 50000},
+	{Family: "off-big", FreshQ: 300, FreshT: 10000},
 }
 
 func init() {
 	register(&run.Prop{
 		ID: "C05",
-		Rule: "case = simple polygon set with holes (nested star polygons in disjoint annuli, combs; validated simple by an exact O(n^2) segment test; outer ccw / holes cw or globally flipped) + delta (both signs, 0.6 .. 3x the size; |delta|<0.5 in off-tiny-delta) + join type (4) + miter limit {1,1.5,2,5} + arc tolerance {0,0.25,delta/2}; off-groups adds the clusters as separate ClipperOffset groups. " +
+		Rule: "case = simple polygon set with holes (nested star polygons in disjoint annuli, combs; validated simple by an exact O(n^2) segment test; outer ccw / holes cw or globally flipped; in half of the cases the paths of the set are listed in random order) + delta (both signs, 0.6 .. 3x the size; |delta|<0.5 in off-tiny-delta) + join type (4) + miter limit {1,1.5,2,5} + arc tolerance {0,0.25,delta/2}; off-groups adds the clusters as separate ClipperOffset groups; off-big: one ring of 200..1200 vertices or 16..64 separate polygons on a grid. " +
 			"Checked (tol = 2 + arc tolerance, k = 1 Round/Bevel, sqrt2 Square, max(miterLimit,sqrt2) Miter): delta>0: input-region points and points delta-tol along every edge's outward normal are inside; every result vertex and every sampled result point is within k*delta+tol of the input region; Round: points closer than delta-tol inside, farther than delta+tol outside. " +
 			"delta<0: the mirror statements for the complement; |delta|<0.5: output equals the input without repeated points; result canonical modulo the global orientation flip (windings in {0,s}). Non-trivial = non-empty result and >= 10 membership comparisons; distinct by input digest.",
 		Assumptions: []string{"exact point-in-region by 128-bit winding; distances in float64 with 0.01 margin", "default arc tolerance is the library's documented 0.002*|delta| when none is given"},
@@ -56,6 +57,21 @@ func offInput(id run.CaseID) offCase {
 	case "off-comb":
 		Ri := int64(R)
 		oc.Paths = Paths{gen.Comb(r, r.Range(-Ri, Ri), r.Range(-Ri, Ri), 1+r.Intn(5), max(Ri/15, 3), max(Ri/2, 12), !oc.Flip)}
+	case "off-big": // one ring of 200..1200 vertices, or 16..64 separate polygons on a grid (delta may merge neighbours)
+		R = gen.PickOf(r, 5000.0, 1.0e6, 5.0e7)
+		if r.Bool() {
+			oc.Paths = Paths{gen.StarPoly(r, 0, 0, R*0.7, R, 200+r.Intn(1000), !oc.Flip)}
+		} else {
+			g := 4 + r.Intn(5)
+			cell := 2 * R / float64(g)
+			for x := 0; x < g; x++ {
+				for y := 0; y < g; y++ {
+					cx, cy := -R+(float64(x)+0.5)*cell, -R+(float64(y)+0.5)*cell
+					oc.Paths = append(oc.Paths, gen.StarPoly(r, int64(cx), int64(cy), cell*0.25, cell*0.4, 5+r.Intn(8), !oc.Flip))
+				}
+			}
+			R = cell
+		}
 	default:
 		clusters := 1 + r.Intn(3)
 		ps, _ := gen.Nested(r, clusters, 5, R, true, oc.Flip)
@@ -69,10 +85,21 @@ func offInput(id run.CaseID) offCase {
 			oc.Groups = nil
 		}
 	}
+	if id.Family != "off-groups" && len(oc.Paths) > 1 && r.Bool() {
+		// the order of the paths in the set carries no meaning: holes before their outer rings, clusters interleaved
+		sh := make(Paths, len(oc.Paths))
+		for i, j := range r.Perm(len(oc.Paths)) {
+			sh[i] = oc.Paths[j]
+		}
+		oc.Paths = sh
+	}
 	size := R
 	mag := gen.PickOf(r, 0.6, 1, 2.5, 7, size*0.02, size*0.1, size*0.4, size*1.5, size*3)
 	if id.Family == "off-tiny-delta" {
 		mag = gen.PickOf(r, 0, 0.1, 0.3, 0.49)
+	}
+	if id.Family == "off-big" { // deltas of several times the size make the raw offset of a 1000-vertex ring cross itself ~n^2 times: legitimate but slow, and not what this family is for
+		mag = gen.PickOf(r, 0.6, 1, 2.5, 7, size*0.005, size*0.02, size*0.1, size*0.3)
 	}
 	if mag < 0.6 && id.Family != "off-tiny-delta" {
 		mag = 0.6
@@ -84,6 +111,9 @@ func offInput(id run.CaseID) offCase {
 	oc.Join = r.Intn(4)
 	oc.Miter = gen.PickOf(r, 1, 1.5, 2, 5)
 	oc.ArcTol = gen.PickOf(r, 0, 0, 0.25, mag/2)
+	if id.Family == "off-big" && oc.ArcTol > 0 && oc.ArcTol < mag/500 {
+		oc.ArcTol = mag / 500 // <= ~50 steps per quarter turn; hundreds of jagged vertices times thousands of arc points each is legitimate but only slow
+	}
 	return oc
 }
 
